@@ -637,35 +637,11 @@ impl FixtureDatabase {
         }
     }
 
-    /// Check if a fixture is available at the given file location.
-    /// A fixture is available if it's in the same file, a conftest.py in a parent directory,
-    /// or from a third-party package.
+    /// Check if a fixture is available at the given file location: resolution finds a
+    /// definition for the name from that file (same file, a conftest.py on the way up - its own
+    /// definition or a fixture it imports -, a plugin or a third-party package).
     pub(crate) fn is_available_fixture(&self, file_path: &Path, fixture_name: &str) -> bool {
-        if let Some(definitions) = self.definitions.get(fixture_name) {
-            for def in definitions.iter() {
-                // Fixture is available if it's in the same file
-                if def.file_path == file_path {
-                    return true;
-                }
-
-                // Check if it's in a conftest.py in a parent directory
-                if def.file_path.file_name().and_then(|n| n.to_str()) == Some("conftest.py")
-                    && file_path.starts_with(def.file_path.parent().unwrap_or(Path::new("")))
-                {
-                    return true;
-                }
-
-                // Check if it's in a virtual environment (third-party fixture)
-                if def.is_third_party {
-                    return true;
-                }
-
-                // Check if it's from a pytest11 entry point plugin
-                if def.is_plugin {
-                    return true;
-                }
-            }
-        }
-        false
+        self.find_closest_definition(file_path, fixture_name)
+            .is_some()
     }
 }
